@@ -405,7 +405,23 @@ impl ReceiveStream {
                 ref mut missing_data,
                 ..
             } => {
-                if missing_data.on_data(frame).is_ready() {
+                let is_ready = missing_data.on_data(frame).is_ready();
+
+                // The peer accounts for this data in its connection flow control window, so
+                // we need to do the same, even though the data itself is discarded.
+                let data_end = frame
+                    .offset
+                    .checked_add_usize(frame.data.len())
+                    .ok_or_else(|| {
+                        transport::Error::FLOW_CONTROL_ERROR
+                            .with_reason("data size overflow")
+                            .with_frame_type(frame.tag().into())
+                    })?;
+                self.flow_controller
+                    .acquire_window_up_to(data_end, frame.tag().into())?;
+                self.flow_controller.release_outstanding_window();
+
+                if is_ready {
                     self.stop_sending_sync.stop_sync();
                     self.final_state_observed = true;
                 }
@@ -766,6 +782,12 @@ impl ReceiveStream {
                 }
                 // If we've already buffered everything, transition to the final state
                 ReceiveStreamState::Receiving if self.receive_buffer.is_writing_complete() => {
+                    // The buffered data is discarded without being read by the application, so
+                    // its flow control credits need to be released. Otherwise the connection
+                    // flow control window would permanently shrink by that amount.
+                    self.flow_controller.stop_sync();
+                    self.receive_buffer.reset();
+                    self.flow_controller.release_outstanding_window();
                     self.state = ReceiveStreamState::DataRead;
                     self.final_state_observed = true;
                     response.status = ops::Status::Finished;
@@ -794,6 +816,12 @@ impl ReceiveStream {
             // We clear the receive buffer, to free up any buffer
             // space which had been allocated but not used
             self.receive_buffer.reset();
+
+            // The discarded data will never be read by the application, so release its flow
+            // control credits. Otherwise the connection flow control window would permanently
+            // shrink by that amount.
+            self.flow_controller.stop_sync();
+            self.flow_controller.release_outstanding_window();
 
             // Mark the stream as reset. Note that the request doesn't have a flush so there's
             // currently no way to wait for the reset to be acknowledged.
